@@ -118,7 +118,7 @@ class C14(Check):
     assumptions = ["pickle has no integrity check and no property promises one: bit flips inside a successfully written file are not injected",
                    "a failed save or a failed restore must fail loudly and leave the live instance untouched"]
     excluded_configs = ["cell strategy: driven for stop / save / restore / continue, but without the interpolation query (not offered by this strategy)",
-                        "extend-split: automatic decision with lmin == lmax and versions 1/2 with lmin >= 2 (known findings of C07)"]
+                        "extend-split: automatic decision with lmin == lmax (known finding of C07)"]
 
     def setup(self):
         import sparseSpACE.spatiallyAdaptiveSingleDimension2, sparseSpACE.spatiallyAdaptiveExtendSplit, sparseSpACE.spatiallyAdaptiveCell  # noqa
@@ -144,8 +144,6 @@ class C14(Check):
             cfg["max_leaves"] = 10 ** 6
             if cfg["lmin"] == cfg["lmax"]:
                 cfg["automatic"] = False
-            if cfg["lmin"] >= 2:
-                cfg["version"] = 0
             if r.random() < 0.3:       # other local grid families that run in this strategy here
                 cfg["grid"] = r.choice(ES.LOCAL_GRIDS[1:] + ["LagrangeGrid"])
                 cfg["boundary"] = True
